@@ -102,7 +102,7 @@ def gen_source(rnd, d, idx, used_keys, case_id=0):
         rename = {a: b}
         if select is not None and rnd.random() < 0.5:
             select = [a, b] if rnd.random() < 0.5 else [b, a]
-    mode = rnd.choice(MODES) if rnd.random() < 0.5 else "by_position"
+    mode = rnd.choice(MODES) if rnd.random() < 0.7 else "by_position"
     # the YAML door leaves out defaults half of the time (source.mode defaults to by_position whatever the block's mode)
     return {"format": fmt, "path": path.name, "select": select, "rename": rename, "mode": mode, "_cols": cols,
             "_omit_defaults": rnd.random() < 0.5}
@@ -127,6 +127,13 @@ def gen_spec(rnd, d, case_id=0):
         rnd.shuffle(items)
         ctx = dict(items)
         src = gen_source(rnd, d, bi, list(ctx) + used, case_id) if rnd.random() < 0.35 else None
+        if mode == "by_position" and src is not None and src["mode"] == "combinatorial" and ctx and rnd.random() < 0.8:
+            # an aligned block whose source contributes the *product* of its columns: the context lists are as long as that product
+            prod = 1
+            for vs in src["_cols"].values():
+                prod *= len(vs)
+            if 0 < prod <= 30:
+                ctx = {k: gen_values(rnd, prod) for k in ctx}
         used += list(ctx) + (list(src["_cols"]) if src else [])
         blocks.append({"mode": mode, "context": ctx, "source": src})
     return {"blocks": blocks, "combine": rnd.choice(MODES) if rnd.random() < 0.4 else "combinatorial", "max_runs": 1000}
